@@ -30,7 +30,7 @@ func VerifC26_QueueHistory() {
 	for s := 0; s < STEPS; s++ {
 		switch vrt.Choose(vrt.N("op", s), 0, 3) {
 		case 0: // append
-			n := vrt.Choose(vrt.N("len", s), 1, 2)
+			n := vrt.Choose(vrt.N("len", s), 0, 2) // empty entries are legal: the scanner skips them
 			b := vrt.Bytes(vrt.N("e", s), n)
 			vrt.Assert(q.Append(b) == nil, "append succeeds")
 			appended = append(appended, b)
@@ -51,21 +51,34 @@ func VerifC26_QueueHistory() {
 				break
 			}
 			vrt.Assert(err == nil, "scanner on a non-empty queue")
-			k := 0
+			// the scanner skips empty entries (they still count towards Advance) and delivers the rest
+			k, read := 0, consumed
 			for k < 2 && sc.Next() {
 				if sc.Err() != nil {
 					break
 				}
-				vrt.Assert(consumed+k < len(appended), "the scanner delivers only appended entries")
-				if consumed+k < len(appended) {
-					vrt.Assert(string(sc.Bytes()) == string(appended[consumed+k]), "the scanner delivers entries in append order")
+				for read < len(appended) && len(appended[read]) == 0 {
+					read++
+				}
+				vrt.Assert(read < len(appended), "the scanner delivers only appended entries")
+				if read < len(appended) {
+					vrt.Assert(string(sc.Bytes()) == string(appended[read]), "the scanner delivers the non-empty entries in append order")
+					read++
 				}
 				k++
 			}
-			if k > 0 {
+			vrt.Assert(sc.Err() == nil, "scanning appended entries raises no error")
+			if k < 2 {
+				// Next returned false: everything up to the end was read (trailing empty entries too)
+				for read < len(appended) && len(appended[read]) == 0 {
+					read++
+				}
+				vrt.Assert(read == len(appended), "the scanner stops only at the end of the queue")
+			}
+			if read > consumed {
 				_, err := sc.Advance()
 				vrt.Assert(err == nil, "scanner advance succeeds")
-				consumed += k
+				consumed = read
 			}
 		case 3: // close and reopen
 			vrt.Assert(q.Close() == nil, "close succeeds")
